@@ -151,6 +151,7 @@ def r3_cooling(ctx):
 
 
 def run(ctx):
+    ctx.guard("C17.K17", "constructor fidelity", lambda: __import__("ctor").check_for(ctx, "C17", 3))
     ctx.guard("C17.R1", "acceptance", lambda: r1_acceptance(ctx))
     ctx.guard("C17.R2", "template", lambda: r2_template(ctx))
     ctx.guard("C17.R3", "cooling", lambda: r3_cooling(ctx))
